@@ -57,11 +57,16 @@ func (p c14) BatchSize(c *run.Ctx) int { return 12 }
 func sharedRootsProfile(r *rand.Rand) (gen.Profile, gen.DataCfg) {
 	p := gen.DefaultProfile()
 	p.SharedRoots = true
+	if r.Intn(2) == 0 {
+		p.ScalarArgs, p.PArgs = true, 0.45
+	}
 	return p, gen.DataCfg{Seed: uint64(r.Int63()), PNull: 10, ListMax: 2, Pool: 3}
 }
 
 var varNameRe = regexp.MustCompile(`\$v(\d+)`)
 var defaultRe = regexp.MustCompile(`(\$v\d+: [\[\]A-Za-z!]+) = ([^,)]+)`)
+var varDeclRe = regexp.MustCompile(`\$(v\d+): ([\[\]A-Za-z!]+)`)
+var inScalarLitRe = regexp.MustCompile(`\[\$(v\d+)\]|\{k: \$(v\d+)\}`)
 var fragOnRe = regexp.MustCompile(`fragment (F\d+) on (\w+)`)
 
 // variants derives near twins of op (validity is checked by the caller).
@@ -106,7 +111,58 @@ func variants(r *rand.Rand, op *gen.Op, mono *ast.Schema) []gen.Op {
 		}
 		add(varNameRe.ReplaceAllString(q, "$$w$1"), func(o *gen.Op) { o.Variables = nv })
 	}
-	// variable values: drop all / change
+	// optional variables omitted by one request and supplied by the other (same operation text)
+	decls := varDeclRe.FindAllStringSubmatch(q, -1)
+	if len(decls) > 0 {
+		less, more := map[string]any{}, map[string]any{}
+		changedLess, changedMore := false, false
+		for k, v := range op.Variables {
+			less[k], more[k] = v, v
+		}
+		for _, d := range decls {
+			name, typ := d[1], d[2]
+			if strings.HasSuffix(typ, "!") {
+				continue
+			}
+			if _, has := op.Variables[name]; has {
+				delete(less, name)
+				changedLess = true
+			} else if v, ok := map[string]any{"Int": float64(7), "String": "zed", "Boolean": true, "Float": 1.5, "ID": "id1", "Color": "RED"}[typ]; ok {
+				more[name] = v
+				changedMore = true
+			}
+		}
+		if changedLess {
+			add(q, func(o *gen.Op) { o.Variables = less })
+		}
+		if changedMore {
+			add(q, func(o *gen.Op) { o.Variables = more })
+		}
+	}
+	// a variable used inside a custom-scalar literal may be declared with any type: same text, other declared type
+	for _, m := range inScalarLitRe.FindAllStringSubmatch(q, -1) {
+		name := m[1] + m[2]
+		for from, to := range map[string]string{"Int": "String", "String": "Int"} {
+			decl := "$" + name + ": " + from
+			if !regexp.MustCompile(regexp.QuoteMeta(decl) + `[,)= ]`).MatchString(q) {
+				continue
+			}
+			val := any("zed")
+			if to == "Int" {
+				val = float64(7)
+			}
+			nm := name
+			add(strings.Replace(q, decl, "$"+nm+": "+to, 1), func(o *gen.Op) {
+				nv := map[string]any{}
+				for k, v := range op.Variables {
+					nv[k] = v
+				}
+				nv[nm] = val
+				o.Variables = nv
+			})
+		}
+	}
+	// variable values: change
 	if len(op.Variables) > 0 {
 		add(q, func(o *gen.Op) {
 			nv := map[string]any{}
